@@ -22,6 +22,10 @@ client sent, after tampering) and a candidate password p:
   algorithm switched consistently, nc+cnonce without qop): only the exception rule applies.
 * no exception other than LoginFailed may leave decode()/checkPassword(), in any zone.
 
+Also judged: `checkHash(H(A1) of the candidate)` must get the same accept/reject verdict; tampers that only
+re-spell the checksum half of the opaque or the nonce (upper-case hex, odd length, non-hex) must be rejected
+like any other alteration.
+
 Guards: integer clock values only (the factory truncates with int()); the age limit is inclusive
 (`> CHALLENGE_LIFETIME_SECS` rejects) as documented; an opaque whose base64 part is spelled differently
 but decodes to the same key bytes counts as unaltered; address None/""/b"" are one address, str and
@@ -52,7 +56,7 @@ ASSUMPTIONS = ["trusted base: the RFC 2617 calculator and the issued-challenge t
                "collision/preimage resistance of md5/sha1 for the negligible-probability argument (a tampered field does not yield a valid hash)",
                "secureRandom is replaced by a seeded generator during a case (nonces/private keys differ per case but are reproducible)"]
 SHARDS = {"quick": 4, "thorough": 16}
-FLOORS = {"checkPassword_calls": 5000, "must_accept_checked": 500, "must_reject_checked": 3000, "accepted": 500,
+FLOORS = {"checkHash_calls": 1500, "checksum_or_nonce_spelling_tampers": 1500, "checkPassword_calls": 5000, "must_accept_checked": 500, "must_reject_checked": 3000, "accepted": 500,
           "rejected_LoginFailed": 500, "rejected_False": 500, "age_exactly_900": 20, "age_901": 20,
           "other_address": 100, "via_web_wrapper": 200, "raw_mutations": 300}
 READY = True
@@ -179,7 +183,8 @@ def flip(rng, v):
 FIELD_TAMPERS = ["none", "none", "none", "flip", "flip", "truncate", "swap-nonce", "swap-opaque", "swap-both", "opaque-garbage",
                  "opaque-b64-truncated", "opaque-no-dash", "opaque-extra-dash", "opaque-forged-time", "opaque-forged-ip",
                  "opaque-forged-nonce", "opaque-other-factory", "opaque-bad-time", "opaque-two-parts-key", "unknown-algorithm",
-                 "algorithm-case", "missing", "missing", "nonascii-name", "extra-param", "qop-auth-int", "empty-value", "raw-mutation"]
+                 "algorithm-case", "missing", "missing", "nonascii-name", "extra-param", "qop-auth-int", "empty-value", "raw-mutation",
+                 "opaque-mac-uppercase", "opaque-mac-odd-length", "opaque-mac-nonhex", "nonce-uppercase", "nonce-odd-length"]
 
 
 def tamper(rng, kind, fields, chal, others, foreign, now):
@@ -244,6 +249,20 @@ def tamper(rng, kind, fields, chal, others, foreign, now):
         f["_extras"] = [(rng.choice([b"foo", b"userhash", b"X-Y"]), rng.choice([b"bar", b"", b"a b"]))]
     elif kind == "qop-auth-int":
         f["qop"] = b"auth-int"
+    elif kind.startswith("opaque-mac-"):  # only the checksum half of the opaque is touched; the key half stays valid
+        d, e = f["opaque"].split(b"-", 1)
+        if kind == "opaque-mac-uppercase":
+            d = d.upper() if d.upper() != d else d[:-1] + (b"A" if d[-1:] != b"A" else b"B")
+        elif kind == "opaque-mac-odd-length":
+            d = rng.choice([d[:-1], d + b"0", d[1:], b"a"])
+        else:
+            j = rng.randrange(len(d))
+            d = d[:j] + rng.choice([b"g", b"z", b"G", b"_", b"."]) + d[j + 1:]
+        f["opaque"] = d + b"-" + e
+    elif kind == "nonce-uppercase":
+        f["nonce"] = f["nonce"].upper() if f["nonce"].upper() != f["nonce"] else f["nonce"] + b"A"
+    elif kind == "nonce-odd-length":
+        f["nonce"] = rng.choice([f["nonce"][:-1], f["nonce"] + b"0", f["nonce"][1:]])
     return ""
 
 
@@ -363,7 +382,8 @@ def one_response(ctx, rng, i, r, facs, issued, clock, base, E):
     if form == "qop":
         fields.update(qop=b"auth", nc=b"%08x" % rng.choice([1, 2, 255]), cnonce=hexlify(bytes(rng.randrange(256) for _ in range(rng.choice([4, 8])))))
     kind = rng.choice(FIELD_TAMPERS)
-    pre = kind in ("swap-both", "swap-nonce", "swap-opaque", "opaque-other-factory", "opaque-forged-nonce", "opaque-forged-time", "opaque-forged-ip") and rng.random() < 0.5
+    pre = kind in ("swap-both", "swap-nonce", "swap-opaque", "opaque-other-factory", "opaque-forged-nonce", "opaque-forged-time", "opaque-forged-ip",
+                    "opaque-mac-uppercase", "opaque-mac-odd-length", "opaque-mac-nonhex", "nonce-uppercase", "nonce-odd-length") and rng.random() < 0.5
     detail = ""
     if pre:  # the client computes its hash over the tampered challenge (an attacker who knows the password)
         detail = tamper(rng, kind, fields, chal, others, foreign, now)
@@ -462,6 +482,27 @@ def one_response(ctx, rng, i, r, facs, issued, clock, base, E):
                               dict(base_w, candidate=cand, expected="False or LoginFailed", observed=True, log=log))
         else:
             ctx.count("dontcare")
+        # the hashed variant of the same question: checkHash(H(A1) of the candidate) must get the same verdict
+        halg = (fields.get("algorithm") or b"md5").lower()
+        if creds is not None and halg in (b"md5", b"sha") and fields.get("username"):
+            ha1 = H(halg, fields["username"] + b":" + realm + b":" + cand)
+            try:
+                got2 = bool(creds.checkHash(ha1))
+            except E.LoginFailed:
+                got2 = "LoginFailed"
+            except Exception as e:
+                ctx.count("non_loginfailed_exceptions")
+                ctx.violation(classify_exception(e, fields, "checkHash"), "checkHash() raised %s instead of returning False / LoginFailed" % type(e).__name__,
+                              dict(base_w, candidate=cand, exception="%s: %s" % (type(e).__name__, str(e)[:200]), expected="False or LoginFailed"))
+                continue
+            ctx.count("checkHash_calls")
+            if verdict == "ACCEPT" and halg == alg and got2 is not True:
+                ctx.violation("checkhash-rejects-right-response", "checkHash(H(A1)) refused a correctly computed response", dict(base_w, candidate=cand, expected=True, observed=got2))
+            elif verdict == "REJECT" and got2 is True:
+                ctx.violation("checkhash-accepted-" + reason, "checkHash(H(A1)) accepted although the reference says reject (%s)" % reason,
+                              dict(base_w, candidate=cand, expected="False or LoginFailed", observed=True))
+    if kind.startswith(("opaque-mac-", "nonce-upper", "nonce-odd")):
+        ctx.count("checksum_or_nonce_spelling_tampers")
     if i < 2 * ctx.nshards and r < 2:
         ctx.sample(dict(base_w, events=log))
 
